@@ -232,9 +232,11 @@ func TestC18Mem(t *testing.T) {
 	runMem(t, rep)
 }
 
-func runMem(t *testing.T, rep *report.R) {
+func runMem(t *testing.T, rep *report.R) { rapid.Check(t, memProp(rep)) }
+
+func memProp(rep *report.R) func(*rapid.T) {
 	failed := false
-	rapid.Check(t, func(rt *rapid.T) {
+	return func(rt *rapid.T) {
 		ms, m := newMS()
 		n := rapid.IntRange(1, 25).Draw(rt, "ops")
 		var prog []string
@@ -273,7 +275,7 @@ func runMem(t *testing.T, rep *report.R) {
 			}
 			rep.Case(overwrote && (compacted || snapped), report.Digest(strings.Join(prog, ";")), cls, func() string { return "L1: " + strings.Join(prog, " ; ") })
 		}
-	})
+	}
 }
 
 // TestC18MemExhaustive enumerates every program of length <= maxLen over a
